@@ -327,6 +327,14 @@ class Fn:
             raise XlateError('dependent scope call: ' + which)
         if base is not None and base.get('kind') != 'CXXThisExpr':
             # method on an object: x.real(), x.imag(), v.size() ...
+            bx = base
+            while bx.get('kind') in ('ImplicitCastExpr', 'ParenExpr') and bx.get('inner'): bx = bx['inner'][0]
+            if (bx.get('kind') == 'DeclRefExpr' and not args and bx['referencedDecl'].get('name') in self.cfg.get('ignore_params', [])
+                    and (bx['referencedDecl'].get('name'), nm) in self.cfg.get('methods', {})):
+                # size query on an ignored (operator-object) parameter, e.g. `op.rows()` in a constructor initialiser (C15)
+                mv = self.cfg['methods'][(bx['referencedDecl'].get('name'), nm)]
+                if mv not in self.extra_params: self.extra_params.append(mv)
+                return mv[0], mv[1]
             o, ok = self.expr(base, env)
             mv = self.cfg.get('methods', {}).get((o, nm))
             if mv is not None and not args:
@@ -573,6 +581,9 @@ class Fn:
             av = self.assigned(tl + el, env)
             if self.track_ub and 'ok' not in av: av = av + ['ok']
             if not av:
+                # nothing the translation tracks is assigned: the statement may be dropped ONLY if every statement in it is one the
+                # translator understands (dry run; an unrecognised call or statement raises instead of vanishing silently)
+                self.stmts(tl, env, Out(), 0, lambda e, o, i: None); self.stmts(el, env, Out(), 0, lambda e, o, i: None)
                 return self.stmts(rest, env, out, ind, final)
             for a in av:
                 if a not in env: env = self.bind(env, a, self.members[a]); self.member(a)
@@ -610,6 +621,7 @@ class Fn:
             for a in av:
                 if a not in env: env = self.bind(env, a, self.members[a]); self.member(a)
             if not av:
+                self.stmts(bl, self.bind(env, iv, 'int'), Out(), 0, lambda e, o, i: None)   # dry run, see IfStmt
                 return self.stmts(rest, env, out, ind, final)
             benv = self.bind(env, iv, 'int')
             out.add(ind, f'let {self.pat_of(av)} := (intRange {self.atom(lo)} {self.atom(hi)}).foldl (fun {self.pat_of(av) if len(av)==1 else self.pat_of(av)} {iv} =>')
